@@ -209,6 +209,11 @@ class Vec:
                 if ok:
                     return v
             if isinstance(e, ast.Subscript):
+                okt, tab = (self.res.program.try_const(e.value, self.res.module, self.res.cls) if isinstance(e.value, ast.Name) and hasattr(self.res, "program") else (False, None))
+                if okt and isinstance(tab, (dict, tuple, list)) and not isinstance(e.slice, ast.Slice):
+                    r = self._table_lookup(tab, self.eval(e.slice, mask), None, False)
+                    if r is not NotImplemented:
+                        return r
                 base = self.eval(e.value, mask)
                 if isinstance(base, (list, tuple)) and isinstance(e.slice, ast.Constant):
                     return base[e.slice.value]
@@ -256,6 +261,8 @@ class Vec:
         if isinstance(e, ast.Call):
             r = self.call_hook(e, mask, self)
             if r is NotImplemented:
+                r = self._generic_call(e, mask)
+            if r is NotImplemented:
                 raise AnalysisError(f"call {ast.unparse(e)[:80]} not modelled in the cascade")
             return r
         if isinstance(e, (ast.List, ast.Tuple, ast.Set)):
@@ -263,6 +270,78 @@ class Vec:
         if isinstance(e, ast.JoinedStr):
             return Opaque("f-string")
         raise AnalysisError(f"expression {ast.unparse(e)[:80]} outside the cascade subset")
+
+    def _table_lookup(self, table, key, default, have_default):
+        """vectorised TABLE[key] / TABLE.get(key, default) for a constant table (dict / tuple / list of plain values)"""
+        items = list(table.items()) if isinstance(table, dict) else list(enumerate(table))
+        if not all(isinstance(k, int) and not isinstance(k, bool) and isinstance(v, (int, bool)) for k, v in items):
+            return NotImplemented
+        if not isinstance(key, np.ndarray):
+            if isinstance(key, (int, np.integer)):
+                d = dict(items)
+                if key in d:
+                    return d[key]
+                if have_default:
+                    return default
+            return NotImplemented
+        if not have_default:
+            if not np.isin(key, [k for k, _ in items]).all():
+                return NotImplemented   # a miss would raise KeyError / IndexError on some cell
+            default = 0
+        if isinstance(default, np.ndarray):
+            out = default.copy()
+        elif isinstance(default, (int, bool, np.integer)):
+            out = np.full(self.n, int(default), dtype=np.int64)
+        else:
+            return NotImplemented
+        for k, v in items:
+            out = np.where(key == k, int(v), out)
+        return out
+
+    def _generic_call(self, e, mask):
+        """calls the rule's hook does not know: lookups in constant tables of the module and calls to *expression helpers* (module-level functions /
+        static methods whose body is `[t = <expr>;]* return <expr>` over their parameters) are evaluated in place"""
+        f = e.func
+        if isinstance(f, ast.Attribute) and f.attr == "get" and 1 <= len(e.args) <= 2 and not e.keywords:
+            ok, tab = self.res.const(f.value)
+            if not ok and isinstance(f.value, ast.Name) and f.value.id.startswith("_"):
+                ok, tab = self.res.program.try_const(f.value, self.res.module, self.res.cls)
+            if ok and isinstance(tab, dict):
+                key = self.eval(e.args[0], mask)
+                dflt = self.eval(e.args[1], mask) if len(e.args) == 2 else None
+                if len(e.args) == 2:
+                    return self._table_lookup(tab, key, dflt, True)
+            return NotImplemented
+        target = None
+        prog = getattr(self.res, "program", None)
+        if prog is not None and isinstance(f, ast.Name):
+            target = getattr(self.res.module, "funcs", {}).get(f.id)
+        elif prog is not None and isinstance(f, ast.Attribute) and isinstance(f.value, ast.Name) and f.value.id in ("self", "cls") and self.res.cls is not None:
+            m_ = prog.lookup_method(self.res.cls, f.attr)
+            if m_ is not None and any(isinstance(d, ast.Name) and d.id == "staticmethod" for d in m_.node.decorator_list):
+                target = m_
+        if target is None or e.keywords or getattr(self, "_inl_depth", 0) > 3:
+            return NotImplemented
+        a = target.node.args
+        if a.vararg or a.kwarg or a.kwonlyargs or len(a.args) != len(e.args):
+            return NotImplemented
+        body = [s_ for s_ in target.node.body if not (isinstance(s_, ast.Expr) and isinstance(s_.value, ast.Constant))]
+        if not body or not isinstance(body[-1], ast.Return) or body[-1].value is None or \
+                not all(isinstance(s_, ast.Assign) and len(s_.targets) == 1 and isinstance(s_.targets[0], ast.Name) for s_ in body[:-1]):
+            return NotImplemented
+        saved = dict(self.env)
+        self._inl_depth = getattr(self, "_inl_depth", 0) + 1
+        try:
+            vals = [self.eval(x, mask) for x in e.args]
+            for prm, v in zip(a.args, vals):
+                self.env[prm.arg] = v
+            for s_ in body[:-1]:
+                self.env[s_.targets[0].id] = self.eval(s_.value, mask)
+            return self.eval(body[-1].value, mask)
+        finally:
+            self._inl_depth -= 1
+            self.env.clear()
+            self.env.update(saved)
 
     def binop(self, op, a, b):
         if isinstance(a, Opaque) or isinstance(b, Opaque):
